@@ -739,7 +739,8 @@ def oracle(case, obs):
         dd = dict(d['defaults'])
         for k in dd:
             src, val = 'default', dd[k]
-            if k in rc_defaults and s in rc_map:   # DEFAULT is visible only in sections the file has
+            # DEFAULT is visible only in sections the parser has: those of the file and those an option adds
+            if k in rc_defaults and (s in rc_map or any(p[0] == s for p in parsed)):
                 src, val = 'file', rc_defaults[k]
             if s in rc_map and k in rc_map[s]:
                 src, val = 'file', rc_map[s][k]
@@ -850,7 +851,9 @@ def oracle(case, obs):
             elif type(v) is str and type(numeric(v)) is not str:
                 key = 'roundtrip-numeric-string-coerced'
             elif k != k.lower():
-                key = 'roundtrip-key-lowercased'
+                # no declared field has an upper-case letter: such a key is an unknown field (accepted silently, see
+                # unknown-field-accepted) and the statement does not speak about it
+                key = 'roundtrip-key-lowercased' if k in dict(decls[s]['defaults']) else 'unknown-field-accepted:lowercased-on-save'
             else:
                 key = 'roundtrip-other'
             bad.append((key, '%s.%s in effect %r, saved text %r, reloaded %r' % (s, k, v, txt, got)))
